@@ -35,8 +35,15 @@ def _impl(tier, seed, search):
     for i in range(n):
         # ---- trnorm ------------------------------------------------------------------------------
         R = inputs.so3(g); noise = 10.0 ** g.uniform(-15, -2)
-        Rn = R + g.normal(size=(3, 3)) * noise
-        inp = dict(R=Rn, noise=noise)
+        kind_ = ('generic', 'shear', 'scale-pair', 'first-column')[i % 4]
+        if kind_ == 'generic': Rn = R + g.normal(size=(3, 3)) * noise
+        elif kind_ == 'shear':            # determinant stays exactly 1, columns are no longer orthogonal
+            Sh = np.eye(3); i_, j_ = [(0, 1), (1, 2), (0, 2), (2, 1), (1, 0), (2, 0)][int(g.integers(6))]; Sh[i_, j_] = noise; Rn = R @ Sh
+        elif kind_ == 'scale-pair':       # opposing scale errors: det = 1 - noise^2
+            Rn = R @ np.diag([1 + noise, 1 - noise, 1.0][::int(g.choice([-1, 1]))])
+        else:                             # only the first column is disturbed
+            Rn = R.copy(); Rn[:, 0] += g.normal(size=3) * noise
+        inp = dict(R=Rn, noise=noise, kind=kind_)
         ok, N = L.noraise('trnorm', lambda: b.trnorm(Rn), inp, 'trnorm(R)')
         if ok:
             r = geom.so_residual(N); L.count('trnorm:valid'); L.maxres['trnorm:valid'] = max(L.maxres.get('trnorm:valid', 0), r)
@@ -92,6 +99,19 @@ def _impl(tier, seed, search):
         if ok: L.close('UnitQuaternion(list)', r * mag, q, TOL, mag, dict(q=q))
         ok, r = L.noraise('UnitQuaternion(s,v)', lambda: UnitQuaternion(q[0], q[1:]).vec, dict(q=q), 'UnitQuaternion(s, v) normalises')
         if ok: L.close('UnitQuaternion(s,v)', r * mag, q, TOL, mag, dict(q=q))
+        if i % 4 == 0:
+            Qm = g.normal(size=(int(g.integers(2, 5)), 4)) * 10.0 ** g.uniform(-3, 3)
+            ok, Xq = L.noraise('UnitQuaternion(Nx4)', lambda: UnitQuaternion(Qm), dict(Q=Qm), 'UnitQuaternion(N x 4 array) normalises each row')
+            if ok:
+                rows_ = [np.asarray(a_, float) for a_ in Xq.data]
+                L.check('UnitQuaternion(Nx4):len', len(rows_) == len(Qm), dict(Q=Qm), 'UnitQuaternion(N x 4) does not hold N values')
+                if len(rows_) == len(Qm):
+                    for a_, q_ in zip(rows_, Qm):
+                        L.close('UnitQuaternion(Nx4):unit', float(np.linalg.norm(a_)), 1.0, TOL, 1.0, dict(Q=Qm), what='a row of UnitQuaternion(N x 4) is not a unit quaternion', sig='UnitQuaternion(Nx4)')
+                        L.close('UnitQuaternion(Nx4):direction', a_ * np.linalg.norm(q_), q_, 1e-9, float(np.linalg.norm(q_)), dict(Q=Qm), sig='UnitQuaternion(Nx4)')
+                    ok2, X2 = L.noraise('UnitQuaternion(Nx4):idempotent', lambda: UnitQuaternion(np.array(rows_)), dict(Q=Qm), 'UnitQuaternion of already unit rows')
+                    if ok2:
+                        for a_, b_ in zip(X2.data, rows_): L.close('UnitQuaternion(Nx4):idempotent', np.asarray(a_, float), b_, TOL, 1.0, dict(Q=Qm), sig='UnitQuaternion(Nx4)')
         ok, r = L.noraise('UnitQuaternion(array)', lambda: UnitQuaternion(q).vec, dict(q=q), 'UnitQuaternion(ndarray(4)) normalises', sig='UnitQuaternion(array):raises')
         if ok: L.close('UnitQuaternion(array)', r * mag, q, TOL, mag, dict(q=q))
         # ---- twists --------------------------------------------------------------------------------------
